@@ -95,6 +95,8 @@ def slen(x):
         return x.slen()
     if isinstance(x, SRange):
         return x.n
+    if hasattr(x, "gvc_slen"):       # ghost sequences of symbolic length (loop-contract drivers)
+        return x.gvc_slen()
     return builtins.len(x)
 
 
@@ -1094,6 +1096,55 @@ class InductiveRange:
         if r is not None:
             self.failures.append(r)
         self.havoc(self.n)
+
+
+def frame_havoc(frame, **kw):
+    """overwrite local variables of a running frame (CPython <= 3.12: f_locals snapshot + PyFrame_LocalsToFast).
+    Used by loop-contract drivers: the state of the real, unmodified function is put into an arbitrary state satisfying the
+    loop invariant, then the real loop body runs on it."""
+    import ctypes
+    loc = frame.f_locals
+    missing = [k for k in kw if k not in frame.f_code.co_varnames]
+    if missing:
+        raise OutOfReach(f"loop contract names locals that the function does not have: {missing}")
+    loc.update(kw)
+    ctypes.pythonapi.PyFrame_LocalsToFast(ctypes.py_object(frame), ctypes.c_int(0))
+    back = frame.f_locals
+    for k, v in kw.items():
+        if back.get(k, None) is not v:
+            raise OutOfReach("frame havoc did not take effect (interpreter does not support it)")
+
+
+class Poison:
+    """value of a loop-assigned local that the invariant says nothing about: any use is an error of the loop contract
+    (the body read a variable before assigning it in this iteration)"""
+
+    def __init__(self, name):
+        object.__setattr__(self, "_n", name)
+
+    def _boom(self, *a, **k):
+        raise OutOfReach(f"loop body reads '{object.__getattribute__(self, '_n')}' carried over from the previous iteration; the loop contract does not constrain it")
+    __getattr__ = __call__ = __iter__ = __bool__ = __add__ = __radd__ = __sub__ = __rsub__ = __mul__ = __rmul__ = _boom
+    __truediv__ = __rtruediv__ = __len__ = __getitem__ = __eq__ = __ne__ = __lt__ = __gt__ = __le__ = __ge__ = __hash__ = _boom
+
+
+def loop_names(fn, which=0, nested=False):
+    """names assigned inside the `which`-th top-level loop of fn (nested=True: inside its first inner loop), and the AST dump
+    of that loop's header: the key of a loop contract."""
+    import ast, inspect, textwrap
+    tree = ast.parse(textwrap.dedent(inspect.getsource(fn)))
+    loops = [n for n in ast.walk(tree) if isinstance(n, (ast.For, ast.While))]
+    outer = [l for l in loops if not any(l is not m and l in ast.walk(m) for m in loops)]
+    loop = outer[which]
+    if nested:
+        inner = [n for n in ast.walk(loop) if isinstance(n, (ast.For, ast.While)) and n is not loop]
+        loop = inner[0]
+    names = set()
+    for node in ast.walk(loop):
+        if isinstance(node, ast.Name) and isinstance(node.ctx, ast.Store):
+            names.add(node.id)
+    header = ast.dump(loop.test) if isinstance(loop, ast.While) else ast.dump(loop.target) + " in " + ast.dump(loop.iter)
+    return names, header, len(outer)
 
 
 def loop_shape(fn, expect_assigned):
